@@ -351,14 +351,21 @@ def fam_ruby_presence():
   for pat in RUBY_PATTERNS:
     prod = Product([opts] * len(pat))
     for i in range(prod.n):
-      cases.append((pat, prod.decode(i), False))
+      cases.append((pat, prod.decode(i), False, 0))
   for pat in RUBY_PATTERNS[2:]:                      # containers: the options applied to the inner rb / rt instead
     prod = Product([opts] * len(pat))
     for i in range(prod.n):
-      cases.append((pat, prod.decode(i), True))
+      cases.append((pat, prod.decode(i), True, 0))
+  # documents with two declared regions (the significant times are then computed on one clone of the document per region):
+  # 1 = the paragraph with the ruby is in no region, 2 = it is assigned to the first region
+  for pat, inner in ((RUBY_PATTERNS[0], False), (RUBY_PATTERNS[2], False), (RUBY_PATTERNS[2], True)):
+    prod = Product([opts] * len(pat))
+    for i in range(prod.n):
+      for regmode in (1, 2):
+        cases.append((pat, prod.decode(i), inner, regmode))
 
   def dec(i):
-    pat, ch, inner = cases[i]
+    pat, ch, inner, regmode = cases[i]
     rb = ruby_node(pat, {} if inner else {j: t for j, (t, _m) in enumerate(ch)})
     for j, (t, m) in enumerate(ch):
       tgt = rb["c"][j]
@@ -370,6 +377,11 @@ def fam_ruby_presence():
       elif m == "empty":
         tgt["c"] = []
     p = node("p", [node("span", [text("x")], id="s0"), rb], id="p")
+    if regmode:
+      if regmode == 2:
+        p["r"] = "r1"
+      p2 = node("p", [node("span", [text("y")], id="s8")], id="p2", r="r2")
+      return doc_spec(node("body", [node("div", [p, p2], id="d")], id="b"), [{"id": "r1"}, {"id": "r2"}])
     return doc_spec(node("body", [node("div", [p], id="d")], id="b"), [])
   return _fam("F-ruby-presence", len(cases), dec,
               "the four ruby patterns, every child independently timed / display=none / without content (also on the rb and rt inside rbc and rtc)")
